@@ -36,7 +36,7 @@ impl<T: Elem + SatisfyTraits<Tr>, M: MX, Tr: TrX + ?Sized> World<T, M, Tr> {
             }
             return;
         }
-        if call == CapCall::PushRun { self.do_push_run(out); return; }
+        if call == CapCall::PushRun { if M::AMORTISED { self.do_push_run(out); } else { out.outcome.push_str("n/a"); } return; }
         let base0 = self.a.downcast_ref::<T>().unwrap().as_ptr() as usize;
         let ev0 = realloc_events::<M>();
         let a = &mut self.a;
